@@ -4,6 +4,7 @@ import (
 	"fmt"
 	"log/slog"
 	"regexp"
+	"runtime/debug"
 	"strings"
 	"time"
 	"unsafe"
@@ -55,10 +56,10 @@ func (c *WorldCfg) headerLines() []string {
 		if i < len(d.HeapOtherUsage) {
 			other = d.HeapOtherUsage[i]
 		}
-		lines = append(lines, fmt.Sprintf("HEAP %d %d %d %d %d %d", i, h.Size, b2i(h.DeviceLocal), limit, budget, other))
+		lines = append(lines, fmt.Sprintf("HEAPCFG %d %d %d %d %d %d", i, h.Size, b2i(h.DeviceLocal), limit, budget, other))
 	}
 	for i, t := range d.Types {
-		lines = append(lines, fmt.Sprintf("TYPE %d %d %d", i, t.Heap, t.Flags))
+		lines = append(lines, fmt.Sprintf("TYPECFG %d %d %d", i, t.Heap, t.Flags))
 	}
 	return lines
 }
@@ -111,6 +112,7 @@ type moveInfo struct {
 	dstOff   int
 	size     int
 	decision int
+	srcBlock int // memory id of the block that really holds the source (differs from srcMem if Memory() is stale)
 }
 
 type defragInfo struct {
@@ -169,6 +171,11 @@ type World struct {
 
 	// scratch for oracles: set by exec for the current step
 	cur stepCtx
+
+	// fault injection requested by a "fault" op for the next step
+	pendingFault *Op
+	// slots whose allocation failed under an injected fault (must be reusable)
+	faultFailedSlots map[int]bool
 }
 
 // stepCtx carries facts about the op being executed to the oracles.
@@ -183,6 +190,8 @@ type stepCtx struct {
 	defragEnd    bool
 	defragBegin  int // defrag slot begun this step, or -1
 	defragFin    int
+	faulted      bool // a fault was armed for this step
+	faultsFired  int
 	finStats     defrag.DefragmentationStats
 	finCopies    int
 	finBytes     int
@@ -259,17 +268,47 @@ func panicSig(v any) string {
 	return "panic-" + s
 }
 
+var siteRe = regexp.MustCompile(`arsenal/(?:vam|memutils)\S*?\.([A-Za-z0-9_]+)\(`)
+
+// panicSite names the innermost function of the code under test on the panicking stack ("-in-Func").
+func panicSite() string {
+	st := string(debug.Stack())
+	// skip everything up to the runtime's panic frames
+	if i := strings.Index(st, "panic("); i >= 0 {
+		st = st[i:]
+	}
+	if m := siteRe.FindStringSubmatch(st); m != nil {
+		return "-in-" + m[1]
+	}
+	return ""
+}
+
 // Step executes one op under recover() with a watchdog.
 func (w *World) Step(op Op) StepResult {
 	w.cur = stepCtx{op: op, defragBegin: -1, defragFin: -1}
 	if w.poisoned {
 		return StepResult{Kind: "skip"}
 	}
+	if op.Name == "fault" {
+		o := op
+		w.pendingFault = &o
+		return StepResult{Kind: "ok"}
+	}
+	if f := w.pendingFault; f != nil {
+		w.pendingFault = nil
+		w.cur.faulted = true
+		before := w.dev.FaultsFired.Load()
+		w.dev.ArmFault(f.arg(0), f.arg(1), f.arg(2), f.arg(3) != 0)
+		defer func() {
+			w.dev.DisarmFault()
+			w.cur.faultsFired = int(w.dev.FaultsFired.Load() - before)
+		}()
+	}
 	done := make(chan StepResult, 1)
 	go func() {
 		defer func() {
 			if r := recover(); r != nil {
-				done <- StepResult{Kind: "panic", PanicMsg: panicSig(r)}
+				done <- StepResult{Kind: "panic", PanicMsg: panicSig(r) + panicSite()}
 			}
 		}()
 		done <- w.exec(op)
@@ -895,6 +934,7 @@ func (w *World) execDefrag(op Op) StepResult {
 			mv := moveInfo{src: w.slotOf(raw[i].SrcAllocation), size: raw[i].Size, decision: mvCopy, srcMem: -1, dstMem: -1}
 			if s := raw[i].SrcAllocation; s != nil && vam.VerifAllocationInfo(s).Allocated {
 				mv.srcMem, mv.srcOff = simvk.MemID(s.Memory()), s.FindOffset()
+				mv.srcBlock = int(vam.VerifAllocationInfo(s).BlockMemoryHandle)
 			}
 			if t := raw[i].DstTmpAllocation; t != nil && vam.VerifAllocationInfo(t).Allocated {
 				mv.dstMem, mv.dstOff = simvk.MemID(t.Memory()), t.FindOffset()
